@@ -70,7 +70,7 @@ CHECKS = {
          "Held on the URLs explored: a catalogue of addresses inside/outside the denied networks rendered from their numeric value in every textual form (decimal, octal, hex, short, mixed radix, IPv6 spellings, IPv4-mapped IPv6, zone ids, case), fake-resolver names with single/multiple/mixed answers, schemes, userinfo, ports, parser-differential candidates, under default and operator-modified denied_cidrs / allowed_hosts; validate_url must refuse what the statement demands (ground truth by construction) and an audit-hook egress sanitizer under the real requests stack driven by the real HTTPAction / MistralHTTPAction / WebhookPublisher must never see a connect to a denied address nor a client call for a refused URL.",
          "runtime monitoring: sys.addaudithook egress sanitizer (socket.connect / getaddrinfo) under the real HTTP client + ground-truth-by-construction oracle on validate_url"),
  'C20': ('fault_enumeration',
-         "Held on the fault sequences enumerated: silent / answered / asynchronous actions in forked workflows, heartbeats for subsets, real handle_expired_actions passes with the virtual clock at threshold-1 / threshold / threshold+1 / far beyond (after the last heartbeat or the first-heartbeat grace) in every order relative to late genuine results, settings incl. disabled; oracle: age >= threshold+1 must be failed with the heartbeat error, age <= threshold-1 must not, asynchronous / fresh / finished never, task and workflow follow their error handling, late results change no row; a stuck task manufactured by losing exactly one hand-off (with-items completion job, child->parent result) is completed exactly once by the engine's own integrity job so that the run equals the loss-free run, nothing scheduled with a negative delay. Task-less expired actions that fill a batch; expiry judged as bounded progress (a pass may stop at its batch size, after as many final passes as there are actions nothing is left); integrity check after a rerun in a three-level tree.",
+         "Held on the fault sequences enumerated: silent / answered / asynchronous actions in forked workflows, heartbeats for subsets, real handle_expired_actions passes with the virtual clock at threshold-1 / threshold / threshold+1 / far beyond (after the last heartbeat or the first-heartbeat grace) in every order relative to late genuine results, settings incl. disabled; oracle: age >= threshold+1 must be failed with the heartbeat error, age <= threshold-1 must not, asynchronous / fresh / finished never, task and workflow follow their error handling, late results change no row; a stuck task manufactured by losing exactly one hand-off (with-items completion job, child->parent result) is completed exactly once by the engine's own integrity job so that the run equals the loss-free run, nothing scheduled with a negative delay. Task-less expired actions that fill a batch; expiry judged as bounded progress (a pass may stop at its batch size, after as many final passes as there are actions nothing is left); integrity check after a rerun in a three-level tree; a deadlock (injected) inside one invocation of the integrity job itself.",
          "runtime monitoring: expiry-predicate monitor over action rows before/after each real checker pass on the virtual clock + metamorphic equality with the loss-free run after single hand-off loss"),
 }
 NOTES = {'C01': "Trusted base: mvf/ref.py (reference semantics for direct workflows without partial joins, merges upstream of joins, policies, with-items, sub-workflows; reverse workflows), mvf/lang.py (independent YAML reading), the harness.  Outside the fragment, and where a command / failing expression ends the workflow while an unordered task is active, only the universal monitors decide.",
